@@ -210,7 +210,12 @@ def model_terms(job, res, mode):
         table(res["scores"], rs), table([r + [True] for r in res["stops"]], lambda v: bool(v)),
         table(res["escores"], re_))
     sched = coq([i for i, _ in res["trace"]])
-    ths = "[" + "; ".join("start_thread %d %s" % (100 + i, coq(list(p))) for i, p in enumerate(job["programs"])) + "]"
+    same = bool(job.get("same_tid"))      # nested queries: virtual threads with ONE thread id
+
+    def mtid(i):
+        return 100 if same else 100 + i
+    programs = res.get("programs") or job["programs"]
+    ths = "[" + "; ".join("start_thread %d %s" % (mtid(i), coq(list(p))) for i, p in enumerate(programs)) + "]"
     lhs = "observe_is %s %s %s %s" % (cfg, orc, sched, ths)
     trace = [(i, l) for i, l in res["trace"]]
     results = [[list(r) for r in rr] for rr in res["results"]]
@@ -240,9 +245,10 @@ def model_terms(job, res, mode):
             return "(%d, Some (TDirect %d))" % (r[0], r[2])
         return "(%d, Some (TRecon %d %d))" % (r[0], r[2], r[3])
     real_ths = "[" + "; ".join(
-        "mkT %d PIdle [] [%s]" % (100 + i, "; ".join(tree_term(r) for r in rr))
+        "mkT %d PIdle [] [%s]" % (mtid(i), "; ".join(tree_term(r) for r in rr))
         for i, rr in enumerate(res["results"])) + "]"
     chk = "all_own_b %s %s" % (orc, real_ths)
+    model_terms.discipline = "observe_disciplined %s %s %s %s" % (cfg, orc, sched, ths)
     return lhs, rhs, chk
 
 
@@ -306,6 +312,18 @@ def forced_jobs(ctx, rng):
             pick = orders6 if target.startswith("auto") else orders
             for o in rng.sample(pick, ctx.n(4, 60)):
                 add(target, opts, sweep, progs, [[t, "shared"] for t in o], "sweep")
+    # NESTED queries under the same instrumentation (one real thread; the nested queries are virtual thread 1 with
+    # the same thread id): trace / provenance / state must match the model run of two same-id threads, and the
+    # recorded schedule must satisfy Threads.disciplined (theorem C16_returns_own_tree_shared_ids)
+    npool = distinct_pool(rng, [9, 8, 7, 4, 5, 6])
+    nbase = {"max_repeats": 2, "methods": ["c16-nest-direct"], "optlib": "random"}
+    for target, opts in [("reusable-hyper", dict(nbase, overwrite=ow)) for ow in (False, True, "improved")] + [
+            ("auto", dict(nbase, cache=True, optimal_cutoff=0)), ("autohq", dict(nbase, cache=True, optimal_cutoff=0))]:
+        for api in ("tree", "path"):
+            for hist in ([0, 0, 1, 3], [1, 2, 1, 0, 4]):
+                jobs.append({"kind": "nested_forced", "target": target, "opts": opts, "queries": npool,
+                             "history": hist, "inner": [3, 4, 5, 0], "api": api, "same_tid": True,
+                             "programs": [hist, ["nested"]], "macro": [], "tag": "nested-recorded"})
     # (b) random programs, 2-3 threads, micro-step schedules
     for _ in range(ctx.n(160, 2500)):
         target, opts = rng.choice(reusable_cfgs + auto_cfgs)
@@ -468,6 +486,29 @@ def stress_jobs(ctx, rng):
     return jobs
 
 
+def nested_jobs(ctx, rng):
+    """outer queries through one shared optimizer whose trial functions query THE SAME object (same thread) about
+    other, uncached contractions: directly (inner search / __call__) and through the library's own
+    PartitionTreeBuilder.build_divide(super_optimize=<the shared object or a preset name bound to it>)"""
+    jobs = []
+    pool = distinct_pool(rng, [9, 10, 8, 4, 5, 6, 7])       # outer: 0,1,2 ; inner: 3,4,5,6
+    for method in ("c16-nest-direct", "c16-nest-builder"):
+        base = {"max_repeats": 2, "methods": [method], "optlib": "random"}
+        cfgs = [("reusable-hyper", dict(base, overwrite=ow)) for ow in (False, True, "improved")]
+        cfgs += [("auto", dict(base, cache=True, optimal_cutoff=0)), ("autohq", dict(base, cache=True, optimal_cutoff=0))]
+        for target, opts in cfgs:
+            for bound in (False, True):
+                for api in ("tree", "path"):
+                    for inner_api in (("path", "tree") if method == "c16-nest-direct" else ("path",)):
+                        if bound and api == "path" and inner_api == "tree":
+                            continue
+                        jobs.append({"kind": "nested", "target": target, "opts": opts, "queries": pool,
+                                     "history": [0, 0, 1, 0, 2, 1, 3], "inner": [3, 4, 5, 6], "api": api,
+                                     "inner_api": inner_api, "bound_preset": bound,
+                                     "tag": "nested:%s:%s%s" % (method[4:], target, ":bound-preset" if bound else "")})
+    return jobs
+
+
 def is_uncached_auto(job):
     return job["target"] in ("auto", "autohq") and job.get("opts", {}).get("cache", True) is False
 
@@ -494,6 +535,7 @@ def run(ctx):
     fj = forced_jobs(ctx, rng)
     sj = seq_jobs(ctx, rng)
     tj = stress_jobs(ctx, rng)
+    nj = nested_jobs(ctx, rng)
     # the repro of the known finding, probed on every run (kept in corpus/C16)
     corpus = os.path.join(os.path.dirname(os.path.dirname(HERE)), "corpus", "C16")
     probes = []
@@ -512,11 +554,14 @@ def run(ctx):
     nsolo = sum(1 for j in sj if j.get("solo"))
     sb = chunks(sj[:len(sj) - nsolo], 4) + [[j] for j in sj[len(sj) - nsolo:]]
     tb = chunks(tj, 2)
-    batches = fb + sb + tb
+    nb = chunks(nj, 6)
+    batches = fb + sb + tb + nb
     ctx.log("jobs: %d forced, %d sequential, %d stress in %d worker processes" % (len(fj), len(sj), len(tj), len(batches)))
     res = run_batches(ctx, batches, timeout=ctx.n(400, 1500))
     flat = [r for b in res for r in b]
-    fres, sres, tres = flat[:len(fj)], flat[len(fj):len(fj) + len(sj)], flat[len(fj) + len(sj):]
+    fres, sres = flat[:len(fj)], flat[len(fj):len(fj) + len(sj)]
+    tres = flat[len(fj) + len(sj):len(fj) + len(sj) + len(tj)]
+    nres = flat[len(fj) + len(sj) + len(tj):]
     ctx.log("workers done in %.1fs" % (time.time() - t0))
 
     def strip(job):
@@ -560,6 +605,16 @@ def run(ctx):
         ctx.count("seq:" + job["tag"])
         ctx.case(("seq", job["target"], json.dumps(job.get("opts"), sort_keys=True), str(job["api"]), tuple(job["history"])),
                  nontrivial=len(set(job["history"])) >= 3, sample=None)
+    for job, r in zip(nj, nres):
+        report(job, r, "history with NESTED queries (a trial of the running search asks the same optimizer object)")
+        ctx.count(job["tag"])
+        if "error" not in r:
+            ctx.count("nested-queries-made", r.get("nested_total", 0))
+            if not r.get("nested_total"):
+                ctx.fail("no nested query happened in a nested job (the harness does not reach the situation)",
+                         {"job": strip(job), "result": r}, found_input=False)
+        ctx.case(("nested", job["target"], json.dumps(job["opts"], sort_keys=True), job["api"], job["inner_api"],
+                  job["bound_preset"]), nontrivial=True, sample=None)
     for job, r in zip(tj, tres):
         report(job, r, "stress run")
         ctx.count(job["tag"])
@@ -587,6 +642,9 @@ def run(ctx):
         lhs, rhs, chk = model_terms(job, r, m)
         cases.append(("job%d:%s" % (ji, m), "%s %s" % (lhs, rhs), "true"))
         owners.append((ji, m))
+        if job.get("same_tid"):
+            cases.append(("job%d:disciplined" % ji, model_terms.discipline, "true"))
+            owners.append((ji, "disciplined"))
         # the verified checker must give the verdict of the content oracle
         verdict = not any("what" in b for b in r.get("bad", []))
         cases.append(("job%d:checker" % ji, chk, coq(verdict)))
@@ -599,7 +657,7 @@ def run(ctx):
                 ctx.count("answer:" + {0: "searched", 1: "direct", 2: "reconstructed", 9: "raised"}[x[1]])
         switches = sum(1 for a, b in zip(r["trace"], r["trace"][1:]) if a[0] != b[0])
         ctx.case(("forced", job["target"], json.dumps(job["opts"], sort_keys=True), tuple(map(tuple, job["programs"])),
-                  tuple(i for i, _ in r["trace"])),
+                  tuple(i for i, _ in r["trace"]), job.get("api"), tuple(job.get("history", ()))),
                  nontrivial=switches >= 2 and len(labels) >= 8,
                  sample={"target": job["target"], "opts": job["opts"], "programs": job["programs"],
                          "schedule": [i for i, _ in r["trace"]], "results": r["results"]} if ji % 97 == 0 else None)
@@ -653,6 +711,11 @@ def run(ctx):
                      {"job": strip(job), "real": r, "model_value": f,
                       "correspondence": "trace / provenance of answers / HyperOptimizer heap / slots+cache / by-thread dict"},
                      found_input=False)
+        if "disciplined" in f:
+            ctx.fail("the recorded schedule of a NESTED run violates Threads.disciplined (a nested query ran while the "
+                     "outer one was between publishing its slot and fetching from it)",
+                     {"job": strip(job), "schedule": r["trace"], "results": r["results"]},
+                     found_input=bool(r.get("bad")))
         if "checker" in f:
             ctx.fail("verified checker all_own_b and the content oracle disagree on the answers of a real run",
                      {"job": strip(job), "results": r["results"], "schedule": r["trace"], "content_oracle": r.get("bad")},
